@@ -511,3 +511,32 @@ def guarded_interproc(ctx, fn_def, body, bb, lit_pred, depth=2):
             return False, 'call site %s in %s is not guarded' % (c.where(), short(ctx.user_fn_of(d)))
         hows.append(how)
     return True, 'every caller guards: ' + '; '.join(sorted(set(hows)))
+
+
+# ------------------------------------------------------------------ loop coverage (A2 variant)
+def loop_coverage(body, call):
+    """Is `call` executed on every iteration of its innermost enclosing `for` loop, with no early exit other than
+    an error return?  returns (ok, detail, iterated_expr)"""
+    loops = [(h, bl) for h, bl in natural_loops(body) if call.bb in bl]
+    if not loops:
+        return False, 'call is not inside a loop', None
+    h, bl = min(loops, key=lambda x: len(x[1]))
+    nexts = [c for c in body.calls if c.bb in bl and (c.fn or '').endswith('Iterator::next') and body.dominates(c.bb, call.bb)]
+    if not nexts:
+        return False, 'enclosing loop is not an iterator loop', None
+    nx = max(nexts, key=lambda c: len(body.dominators(c.bb)))
+    it = body.expr_operand(nx.args[0])
+    some_t = [o for _, o in ok_edges(body, nx)]
+    if not some_t:
+        return False, 'cannot find the Some edge of the iterator', it
+    st = some_t[0]
+    # (a) an iteration that reaches the next round without the call
+    r = body.reachable(st, avoid_blocks={call.bb})
+    if nx.bb in r:
+        return False, 'an iteration can skip the call (continue / filter inside the loop body)', it
+    # (b) a successful exit that does not go through the iterator's None edge (break / early Ok return)
+    oks = strict_ok_exit_blocks(body) | {b for b, k, _ in body.return_sites() if k in ('value', 'tail')}
+    r2 = body.reachable(st, avoid_blocks={nx.bb})
+    if oks & r2:
+        return False, 'the loop can be left early with a success result (break / early return)', it
+    return True, 'every iteration reaches the call; the loop ends only by exhaustion or error', it
